@@ -74,14 +74,24 @@ func (its *list) ToJSON() interface{} {
 func (its *list) ExecuteLocal(op interface{}) (interface{}, errors.OrdaError) {
 	switch cast := op.(type) {
 	case *operations.InsertOperation:
+		// the position was checked before the lock was taken; another goroutine may have changed the list since
+		if err := its.snapshot().validateInsertPosition(cast.Pos); err != nil {
+			return nil, err
+		}
 		target, ret := its.snapshot().insertLocal(cast.Pos, cast.GetTimestamp(), cast.GetBody().V...)
 		cast.GetBody().T = target
 		return ret, nil
 	case *operations.DeleteOperation:
+		if err := its.snapshot().validateGetRange(cast.Pos, cast.NumOfNodes); err != nil {
+			return nil, err
+		}
 		delTargets, _, delValues := its.snapshot().deleteLocal(cast.Pos, cast.NumOfNodes, cast.GetTimestamp())
 		cast.GetBody().T = delTargets
 		return delValues, nil
 	case *operations.UpdateOperation:
+		if err := its.snapshot().validateGetRange(cast.Pos, len(cast.GetBody().V)); err != nil {
+			return nil, err
+		}
 		uptTargets, uptValues, err := its.snapshot().updateLocal(cast.Pos, cast.GetTimestamp(), cast.GetBody().V)
 		if err != nil {
 			return nil, err
